@@ -359,7 +359,7 @@ fn run_schedules(rep: &Report, tier: Tier) {
 pub fn run(tier: Tier) -> Report {
     let rep = Report::new("C03", tier);
     let ls = lists();
-    rep.set_rule("every history of depth <= D over {predict(scene in {0,1}, [] | [P] | [Q] | [P,Q]), skip(0,1), skip(1,1), skip(0,2), wasted, clear_wasted, set_auto_waste(1)} with idle_tracks(both scenes), current epochs, active/wasted shard statistics and both store dumps observed after every step, on three instances with collection period 100 / 0 / 1 in lock-step; reference model: scene epochs, track -> (scene, last epoch, length, place). Sort at depth 4 (quick) / 5 (thorough) for max_idle 0,1,2 x shards 1,2 (quick: 2 shards only with max_idle 1); the other three trackers at depth 3 / 4. Schedule part (batch trackers, pipelined use: results retrieved by consumer threads while the next batch is submitted; 1-2 voting threads; max idle 0 / 1 / 2, once with expired tracks collected at every submission): every interleaving within a deviation bound of 2-3 multi-scene batches; the model is rebuilt from the records (which track each detection was recorded in) and compared with the epochs, idle tracks and expired tracks the tracker reports afterwards; no expired track continued, length = detections attached. Non-trivial = history with an expiry (a skip or an empty predict after a track exists).");
+    rep.set_rule("every history of depth <= D over {predict(scene in {0,1}, [] | [P] | [Q] | [P,Q]), skip(0,1), skip(1,1), skip(0,2), wasted, clear_wasted, set_auto_waste(1)} with idle_tracks(both scenes), current epochs, active/wasted shard statistics and both store dumps observed after every step, on three instances with collection period 100 / 0 / 1 in lock-step; reference model: scene epochs, track -> (scene, last epoch, length, place). Sort at depth 4 (quick) / 5 (thorough) for max_idle 0,1,2 x shards 1,2 (quick: 2 shards only with max_idle 1); the other three trackers at depth 3 / 4; Sort and BatchSort also with a (slack) spatio-temporal constraint table configured. Schedule part (batch trackers, pipelined use: results retrieved by consumer threads while the next batch is submitted; 1-2 voting threads; max idle 0 / 1 / 2, once with expired tracks collected at every submission): every interleaving within a deviation bound of 2-3 multi-scene batches; the model is rebuilt from the records (which track each detection was recorded in) and compared with the epochs, idle tracks and expired tracks the tracker reports afterwards; no expired track continued, length = detections attached. Non-trivial = history with an expiry (a skip or an empty predict after a track exists).");
     rep.assume("identical / disjoint boxes, so association is unambiguous; history part: sequential use under the default schedule; schedule part: bounded departures from the default schedule at named points");
     let mut total_h = 0u64;
     let mut total_s = 0u64;
@@ -375,6 +375,14 @@ pub fn run(tier: Tier) -> Report {
             c.shards = shards;
             cfgs.push((c, tier.pick(4, 5)));
         }
+    }
+    // spatio-temporal constraints configured (slack: P and Q never move, every distance is 0, and the table has no entry
+    // for gaps above 1): the lifecycle is the same as without them
+    for kind in [Kind::Sort, Kind::BatchSort] {
+        let mut c = TrkCfg::new(kind);
+        c.max_idle = 1;
+        c.constraints = Some(vec![(1, 1.0)]);
+        cfgs.push((c, if kind == Kind::Sort { tier.pick(4, 5) } else { tier.pick(3, 4) }));
     }
     for kind in [Kind::VisualSort, Kind::BatchSort, Kind::BatchVisualSort] {
         for (max_idle, shards, pos) in [(1usize, 1usize, Pos::Iou(0.3)), (0, 2, Pos::Maha)] {
